@@ -54,6 +54,17 @@ claim("C19", "other",
       "Same trusted base as C02.",
       "builder value-flow (producer sets, taint) over MIR (custom rustc_private lint)")
 
+claim("C06", "other",
+      "Decides the interface/bookkeeping half of the property on the code of the four passes, optimize_context and uniquify_prf_id, i.e. for every graph they are ever given: every re-created node gets the source node's annotations and name on every path to the mapping (C06.A); nodes are visited in get_nodes() order and Input nodes are never skipped (C06.I, per variant by abstract interpretation); the recorded type is get_type() of the very node whose operation is copied and only the tabled modules may skip inference (C06.T); each pass marks the mapped output and the four mappings are chained in data-dependence order (C06.O); A2B/B2A cancellation is guarded by scalar-type equality (C06.B); the dangling pass drops only unneeded non-inputs (C06.X). That the optimised graph computes the same function is NOT decided.",
+      "DESIGN.md section 3, C06",
+      "Trusted: may-value-flow (a wrong extra producer can only cause a report), abstract interpreter, MIR construction; the table of modules allowed to call add_node_with_type.",
+      "must-pass-through + value-flow provenance + variant-conditioned abstract interpretation on MIR (custom rustc_private lint)")
+claim("C09", "other",
+      "Decides 'an operation whose arguments do not fit is rejected, not crashed' for the partial accessors of Type (derived: get_scalar_type/get_shape/get_dimensions) at all call sites of the type-inference slice: assuming any inadmissible variant for the receiver value, guards on the same value make the call unreachable, or every producer of the value is an admissible constructor / validated container element / struct field with an invariant / guarded argument (C09.K); constant dependency indices of all dispatchers stay within the arity table for every Operation variant (C09.A); evaluator arms that can only panic are diverted by evaluate_graph (C09.E); nodes are only created in add_node_internal and add_node infers the type (C09.F). That each computed value has the inferred shape, and panic-freedom of general index arithmetic, are NOT decided.",
+      "DESIGN.md section 3, C09",
+      "Trusted: abstract interpreter over Type/Operation variant tags (unknown calls are TOP), value-flow engine, the recognition of table-level validation loops, MIR construction.",
+      "guard analysis by variant-conditioned abstract interpretation of MIR + provenance rules (custom rustc_private lint)")
+
 ALL = ["C%02d" % i for i in range(1, 21)]
 
 def main():
